@@ -320,3 +320,22 @@ Print Assumptions C01_fse_compressed_mode_table.
 (* non-vacuity: the predefined literal-length distribution has a description under the writer model *)
 Example C01_ncount_example : exists d, write_ncount 6 spec_LL_default = Some d /\ lenN d = 20.
 Proof. eexists. split; [timeout 60 vm_compute; reflexivity|reflexivity]. Qed.
+
+(* ---- Huffman tree descriptions (coq/Codec/EncodeHufDesc.v: HUF_writeCTable_wksp, HUF_compressWeights with the two
+        interleaved FSE states of FSE_compress_usingCTable): the reference decoder reads back exactly the weights that were
+        written, in both representations; what it then does with them (weights_finish: the checks on the builder's CHOICE of
+        weights and the implied last weight) is the same as for any other description of those weights ---- *)
+From ZV.Codec Require Import EncodeHufDesc EncodeHufDescProofs.
+
+Theorem C01_huffman_direct_weights_round_trip : forall maxLog ws tail,
+  1 <= lenN ws <= 128 -> Forall (fun w => w < 16) ws ->
+  read_huf_weights maxLog (enc_weights_direct ws ++ tail) = weights_finish maxLog ws (lenN (enc_weights_direct ws)).
+Proof. exact read_direct_weights. Qed.
+Print Assumptions C01_huffman_direct_weights_round_trip.
+
+Theorem C01_huffman_fse_weights_round_trip : forall maxLog log counts ws enc tail t,
+  enc_weights_fse log counts ws = Some enc -> build_dtable log counts = Ok t -> nb_pos t ->
+  log <= 6 -> lenN counts <= 256 -> Forall (fun c => (-1 <= c)%Z) counts -> (length ws <= 260)%nat ->
+  read_huf_weights maxLog (enc ++ tail) = weights_finish maxLog ws (lenN enc).
+Proof. exact read_fse_weights. Qed.
+Print Assumptions C01_huffman_fse_weights_round_trip.
